@@ -29,6 +29,10 @@ class Module:
             self.tree = ast.parse(src, filename=path)
         except SyntaxError as e:  # pragma: no cover
             raise AnalysisError('cannot parse {}: {}'.format(path, e))
+        self.unrolled = 0
+        if not os.environ.get('SA_NO_NORMALIZE'):
+            from .normalize import normalize
+            self.unrolled = normalize(self.tree)
         self.imports = {}      # local name -> ('module', modname) |
         #                                      ('symbol', modname, symbol)
         self.star_imports = []  # module names
